@@ -378,6 +378,46 @@ def check(ctx: Ctx, col: Collector, tier: str) -> None:
             probs.append(f"plain class -> {o.value!r}")
     (col.ok if not probs else col.bad)("C05.CTOR-TABLE", key, repo.loc(VISITOR, vfi.node), "; ".join(probs) or "class with args -> NamedSequenceType, without -> NamedType(name, fullname)",
                                        *([] if not probs else [f"user class: {probs[0]}"]))
+    # Final[T]: mypy strips the qualifier, the analysed type is that of T; the unanalysed argument is an UnboundType, for which the translator
+    # only understands scalars, list/set and classes of the same module
+    stf = State({"self": Sym("self")})
+    fin = Obj("UnboundType", (("name", Const("Final")), ("args", ListV((Sym("final_arg", "UnboundType"),)))))
+    outs = ctx.interp(vfi).run_function(vfi, {"self": Sym("self"), "mypy_type": Sym("mypy_type"), "unanalyzed_type": fin}, stf)
+    rets = [o for o in outs if o.kind == "return"]
+    probs = []
+    for o in rets:
+        v = o.value
+        if not (isinstance(v, Obj) and v.cls == "sds.FinalType"):
+            probs.append(f"Final[T] -> {v!r}"[:80])
+            continue
+        inner = v.get("type_")
+        def is_analysed(a: AV) -> bool:
+            return a == Sym("mypy_type") or (isinstance(a, App) and a.func.endswith("get_proper_type") and a.args == (Sym("mypy_type"),))
+        if not (isinstance(inner, App) and inner.func == REC_V and inner.args and is_analysed(inner.args[0])):
+            probs.append(f"the wrapped type is {inner!r}"[:120] + ", not the translation of the analysed type")
+    key = f"{vkey}::Final[T]"
+    if probs or not rets:
+        col.bad("C05.CTOR-TABLE", key, repo.loc(VISITOR, vfi.node), "; ".join(dict.fromkeys(probs)) or "no path",
+                "the type wrapped by Final[...] is translated from the unanalysed annotation instead of the type mypy analysed: `a: Final[list[Optional[int]]]` is emitted as `List<Optional>`, "
+                "`b: Final[Optional[Item]]` as `Optional`, `c: Final[dict[str, tuple[int, str]]]` as `unknown`, while the same annotations without Final are translated correctly")
+    else:
+        col.ok("C05.CTOR-TABLE", key, repo.loc(VISITOR, rets[0].node), "Final[T] -> FinalType(translation of the analysed type of T)")
+    # a type alias is transparent: mypy hands over a TypeAliasType (no ProperType) wherever an alias is used
+    st_alias = {f"truthy:{Sym('mypy_type.is_recursive')!r}": False}
+    it_a = ctx.interp(vfi)
+    st0 = State({"self": Sym("self")})
+    st0.facts.update(st_alias)
+    outs = it_a.run_function(vfi, {"self": Sym("self"), "mypy_type": Sym("mypy_type", "TypeAliasType"), "unanalyzed_type": Const(None)}, st0)
+    rets = [o for o in outs if o.kind == "return"]
+    all_unknown = bool(rets) and all(isinstance(o.value, Obj) and o.value.cls == "sds.UnknownType" for o in rets)
+    expands = any(isinstance(x, App) and ("get_proper_type" in x.func or "expand" in x.func or x.func.endswith("_expand_once")) for o in outs for e in o.effects for x in ([App(e.target, e.args)] if e.kind == "call" else []))
+    key = f"{vkey}::TypeAliasType"
+    if all_unknown or not rets:
+        col.bad("C05.CTOR-TABLE", key, repo.loc(VISITOR, vfi.node), f"{sorted(only_obj(outs))}",
+                "a use of a type alias (`IntOrStr = Union[int, str]; def f(a: IntOrStr)`, `Rows = list[dict[str, int]]`) reaches the translator as mypy's TypeAliasType, which no branch expands: "
+                "every alias use is emitted as `unknown`, at every position and depth")
+    else:
+        col.ok("C05.CTOR-TABLE", key, repo.loc(VISITOR, outs[0].node), f"TypeAliasType is expanded before the dispatch ({'get_proper_type' if expands else 'other branch'}); kinds {sorted(only_obj(outs))[:4]}")
     # every other proper type class falls back to UnknownType (never raises)
     others = [c for c in ctx.lib.subclasses("ProperType") if c not in simple and c not in
               ("ProperType", "TypeVarType", "Instance", "AnyType", "UnboundType", "FunctionLike", "TypeVarLikeType")]
